@@ -182,9 +182,9 @@ def generate(tier, seed, shard, nshards):
         d = rnd_doc(rng)
         if not isinstance(d, dict):
             d = {'root': d}
-        variant = rng.choice(['plain', 'plain', 'numpy-complex', 'dict-subclass'])
-        yield {'kind': 'doc', 'doc': _jsonify(d), 'format': 'json' if variant == 'numpy-complex' else rng.choice(['json', 'yaml', 'yml']), 'via_file': rng.random() < 0.3,
-               'variant': variant}
+        variant = rng.choice(['plain', 'plain', 'numpy-complex', 'dict-subclass', 'mixed-keys'])
+        fmt = 'json' if variant == 'numpy-complex' else (rng.choice(['yaml', 'yml']) if variant == 'mixed-keys' else rng.choice(['json', 'yaml', 'yml']))
+        yield {'kind': 'doc', 'doc': _jsonify(d), 'format': fmt, 'via_file': rng.random() < 0.3, 'variant': variant}
     for _ in range(n['cplx'] // nshards):
         mag, ph = rnd_complex(rng)
         yield {'kind': 'cplx', 'abs': mag, 'phase': ph}
@@ -346,6 +346,9 @@ def _as_variant(x, variant, depth=0):
     import numpy as np
     if isinstance(x, dict):
         items = [(k, _as_variant(v, variant, depth + 1)) for k, v in x.items()]
+        if variant == 'mixed-keys':
+            # YAML mappings may be keyed by numbers as well as by strings (node numbers, harmonic orders)
+            return {(j if j % 2 else k): v for j, (k, v) in enumerate(items)}
         if variant == 'dict-subclass':
             if depth % 2 == 0:
                 return collections.OrderedDict(items)
